@@ -250,8 +250,17 @@ func (x *ScheduleSettings) toInternal() (c *filter.ConfigSchedule, err error) {
 		return nil, fmt.Errorf("loading timezone: %w", err)
 	}
 
-	w := x.WeeklyRange
-	days := []*DayRange{w.Sun, w.Mon, w.Tue, w.Wed, w.Thu, w.Fri, w.Sat}
+	// Use the getters, since the weekly range may be unset.
+	w := x.GetWeeklyRange()
+	days := []*DayRange{
+		w.GetSun(),
+		w.GetMon(),
+		w.GetTue(),
+		w.GetWed(),
+		w.GetThu(),
+		w.GetFri(),
+		w.GetSat(),
+	}
 	for i, d := range days {
 		if d == nil {
 			continue
